@@ -11,7 +11,7 @@ Every theorem quantifies over **all** histories (`List Arrival`, any length), an
 and receivers, arbitrary time stamps (equal, decreasing, far apart) unless `Monotone` is assumed,
 every window length `w` (0 included) and every decodability predicate.
 -/
-import Rs1090.Proofs.DedupSpec
+import Rs1090.Proofs.DedupWindow
 import Rs1090.Model.Decode.Message
 namespace Rs1090.Props.C10
 open Rs1090 Rs1090.Dedup
@@ -122,6 +122,26 @@ theorem record_shape (w : Nat) (dec : Frame → Bool) (hist : List Arrival) :
 theorem emitted_when_closed (w : Nat) (s : State) (a : Arrival) (h : Inv w s) :
     ∀ g ∈ (stepG w s a).2, firstT g + w ≤ a.t := fun g hg => by
   simpa [closes] using (stepG_spec a h).2.2.2.1 g hg
+
+/-- `emitted_when_closed` for histories: the records sent while the arrival `a` is processed —
+    `run (hist ++ [a])` sends what `run hist` sent and then `new` — all belong to groups whose
+    window is over at `a.t`: `r.ts + w ≤ a.t`.  No record leaves before its window has closed. -/
+theorem emitted_when_closed_hist (w : Nat) (dec : Frame → Bool) (hist : List Arrival) (a : Arrival) :
+    ∃ new, (run w dec init (hist ++ [a])).2 = (run w dec init hist).2 ++ new ∧
+      ∀ r ∈ new, r.ts + w ≤ a.t := by
+  refine ⟨records dec (stepG w (runG w init hist).1 a).2, ?_, ?_⟩
+  · rw [records_of_groups, records_of_groups, runG_snoc, records_append]
+  · intro r hr
+    simp only [records, List.mem_map, List.mem_filter] at hr
+    obtain ⟨g, ⟨hg, _⟩, rfl⟩ := hr
+    exact emitted_when_closed w _ a (inv_runG hist (Dedup.inv_init w)) g hg
+
+/-- … the same for the groups (undecodable ones included): a group taken out of the cache while `a`
+    is processed, after any history, has `first + w ≤ a.t`. -/
+theorem emitted_groups_when_closed_hist (w : Nat) (hist : List Arrival) (a : Arrival) :
+    (runG w init (hist ++ [a])).2 = (runG w init hist).2 ++ (stepG w (runG w init hist).1 a).2 ∧
+    ∀ g ∈ (stepG w (runG w init hist).1 a).2, firstT g + w ≤ a.t :=
+  ⟨by rw [runG_snoc], emitted_when_closed w _ a (inv_runG hist (Dedup.inv_init w))⟩
 
 /-- **closed groups are emitted** (one iteration): after an arrival at time `t` has been
     processed, no group with expiry ≤ t remains in the cache. -/
@@ -358,6 +378,30 @@ theorem members_within_window (w : Nat) (s : State) (a : Arrival) (h : Inv w s)
   rcases this (fun x hx => (h.wf x hx).1) hb g hg' m hm with rfl | h1
   · exact hopen
   · exact h1
+
+/-- `members_within_window` for histories — **open groups**: after ANY history (any time stamps),
+    every member of every group still in the cache arrived inside the group's window
+    `[first, first + w)`. -/
+theorem members_within_window_hist (w : Nat) (dec : Frame → Bool) (hist : List Arrival) :
+    ∀ g ∈ (run w dec init hist).1.cache, ∀ m ∈ g.2, m.t < firstT g + w := by
+  rw [records_of_groups]
+  exact (runG_within hist (Dedup.inv_init w) (within_nil w)).1
+
+/-- … — **emitted groups**: in every group that has left (hence in every record sent,
+    `record_shape`), every member except possibly the LAST one arrived inside the window
+    `[first, first + w)`. -/
+theorem emitted_members_within_window (w : Nat) (hist : List Arrival) :
+    ∀ g ∈ (runG w init hist).2, ∀ m ∈ g.2.dropLast, m.t < firstT g + w :=
+  (runG_within hist (Dedup.inv_init w) (within_nil w)).2
+
+/-- … and the last member is late only in one way: it is the very arrival whose processing made the
+    group leave (it joined the group of its frame, line 32 of dedup.rs, before the expiry loop ran).
+    For every history `hist` followed by an arrival `a`: in a group that leaves while `a` is
+    processed, every member other than `a` itself arrived inside the window. -/
+theorem late_member_is_closing_arrival (w : Nat) (hist : List Arrival) (a : Arrival) :
+    ∀ g ∈ (stepG w (runG w init hist).1 a).2, ∀ m ∈ g.2, m = a ∨ m.t < firstT g + w :=
+  (stepG_within a (inv_runG hist (Dedup.inv_init w))
+    (runG_within hist (Dedup.inv_init w) (within_nil w)).1).2.2
 
 /-! ### composed with the decoder model
 
